@@ -287,7 +287,64 @@ def oracle_nts(case, res):
     return None
 
 
+# ---- a big pool: string indices above 0x7fff in const-string, strings whose length prefix takes three bytes (no model) ------
+def gen_big(rng, tier, ctx):
+    """case = (number of filler strings, lengths of the long strings, seed)"""
+    return [(40000, [16383, 16384, 16385, 20000], rng.randrange(1, 10**6))] + ([(33000, [70000], rng.randrange(1, 10**6))] if tier == "thorough" else [])
+
+
+def impl_big(case):
+    from tools.writers.dexwriter import DexBuilder, Code, Str, Str32
+    from androguard.core.dex import DEX
+    nfill, lengths, seed = case
+    r = random.Random(seed)
+    longs = ["".join(chr(r.choice((0x41, 0xE9, 0x4E2D, 0x7A))) for _ in range(n - 1)) + "z" for n in lengths]
+    late = ["zz%d" % i for i in range(6)] + ["\uffee" + "x" * i for i in range(3)]          # sort behind the fillers
+    fill = ["f%05d" % i for i in range(nfill)]
+    b = DexBuilder(extra_strings=fill + longs + late)
+    k = b.add_class("Lp/A;")
+    units = []
+    for j, t in enumerate(late + longs[:2]):
+        units += [0x001A, Str(t)] if j % 3 else [0x001B, Str32(t)]
+    units.append(0x000E)
+    k.add_method("m", "V", (), access=1, direct=False, code=Code(2, 1, 0, units))
+    d = DEX(b.build())
+    cm = d.get_class_manager()
+    consts = []
+    for m in d.get_classes()[0].get_methods():
+        for ins in m.get_instructions():
+            if ins.get_op_value() in (0x1A, 0x1B):
+                consts.append([ins.get_ref_kind(), b.strings[ins.get_ref_kind()] == ins.get_raw_string(), b.strings[ins.get_ref_kind()] == cm.get_string(ins.get_ref_kind())])
+    all_ = d.get_strings()
+    bad = [i for i, t in enumerate(b.strings) if all_[i] != t][:5]
+    sizes = {len(it.get()): it.get_utf16_size() for it in d.strings if len(it.get()) >= 16000}
+    return {"consts": consts, "first_wrong_strings": bad, "n": len(all_), "want_n": len(b.strings), "long_sizes": sorted(sizes.items()),
+            "want_idx": sorted(b.string_index(t) for t in late + longs[:2])}
+
+
+def oracle_big(case, res):
+    if isinstance(res, Err):
+        return "parsing the generated DEX failed: %s %s" % (res.name, res.msg[:160])
+    if res["n"] != res["want_n"] or res["first_wrong_strings"]:
+        return "get_strings(): %d strings (%d written); the strings at %r differ from the ones written" % (res["n"], res["want_n"], res["first_wrong_strings"])
+    if sorted(c[0] for c in res["consts"]) != res["want_idx"]:
+        return "const-string operands %r, the code refers to the strings %r" % (sorted(c[0] for c in res["consts"]), res["want_idx"])
+    for idx, raw_ok, s_ok in res["consts"]:
+        if not (raw_ok and s_ok):
+            return "const-string with string index %d (0x%x): get_raw_string / get_string do not return that string" % (idx, idx)
+    if min(res["want_idx"]) < 0x8000:
+        return None
+    for n, size in res["long_sizes"]:
+        if n != size:
+            return "a string of %d UTF-16 units reports utf16_size %d" % (n, size)
+    if sorted(n for n, _ in res["long_sizes"]) != sorted(n for n in case[1] if n >= 16000):
+        return "long strings of %r units written, found %r" % (case[1], [n for n, _ in res["long_sizes"]])
+    return None
+
+
 STREAMS = [
+    {"name": "big-pool", "gen": gen_big, "impl": impl_big, "pinned": False, "oracle": oracle_big, "case_timeout": 240,
+     "stats": lambda cases, results: {"files": len(cases), "strings": sum(c[0] for c in cases)}},
     {"name": "pools", "gen": gen_pools, "impl": impl_pools, "canon": canon_pools, "coq_header": COQ_HEADER,
      "coq_type": "(list Z * (Z * Z)) * list Z", "coq_input": lambda c: None, "coq_input_r": coq_pools, "coq_obs": "obs_pool",
      "model_vo": "Dex/StringsModel.vo", "pinned": False, "oracle": oracle_pools, "stats": stats_pools, "shard": 6},
